@@ -322,8 +322,8 @@ def gen_boundary_cases(rng):
 
     def H(name, frames, steps):
         out.append({"kind": "history", "frames": frames, "steps": steps, "boundary": name})
-    for lib in LIBS:
-        sh = lambda i: {"frame": i, "lib": lib, "obj": "shared"}
+    for lib in ("xgb", "cat", "lgbm"):
+        sh = lambda i, lib=lib: {"frame": i, "lib": lib, "obj": "shared"}
         a, b = _bframe(2, 2, 1, [2], rng), _bframe(2, 2, 1, [2], rng)
         for r in b["cat"]["rows"]:
             r[0] += 500
